@@ -135,6 +135,17 @@ def run(r: Run):
             for form in (("vec", "map", "evec", "emap") if thorough or iso in isos[:2] or iso == 0 else ("vec", "emap")):
                 rlines.append(f"read\t{form}\t{c}\t{cps(text)}")
                 meta.append((text, form))
+    # ... the plain symbol and the bracketed key read on compositions that hold both, in both insertion orders (a scan that
+    # stops at the first entry of the element must not decide the answer)
+    for sym, isos in table_keys().items():
+        for iso in (isos if thorough else isos[:1]):
+            if iso == 0:
+                continue
+            for c in (f"{sym}:{iso}=7,{sym}:0=3,O:18=2", f"{sym}:0=3,{sym}:{iso}=7", f"O:0=1,{sym}:{iso}=7,{sym}:0=3"):
+                for text in (sym, f"{sym}[{iso}]"):
+                    for form in ("vec", "map", "evec", "emap"):
+                        rlines.append(f"read\t{form}\t{c}\t{cps(text)}")
+                        meta.append((text, form))
     for text in (lookalike if thorough else lookalike[:: 4]):
         sym = text.split("[")[0]
         real = [i for i in kd.get(sym, []) if i != 0][:2]
